@@ -7294,12 +7294,31 @@ fn eval_block(env: &mut Env, expr_value_is_used: bool, block: &Block) {
     }
 }
 
+/// Is this pending expression waiting to pop a bindings block that it
+/// pushed for a block it is currently running (an `if`/`else` branch,
+/// a `match` case or a `try` body)?
+fn owns_running_block(expr: &Expression, expr_state: &ExpressionState) -> bool {
+    matches!(
+        expr.expr_,
+        Expression_::If(_, _, _) | Expression_::Match(_, _) | Expression_::Try(_, _, _)
+    ) && matches!(expr_state, ExpressionState::EvaluatedSubexpressions)
+}
+
 fn eval_break(env: &mut Env, expr_value_is_used: bool) {
     // Pop all the currently evaluating expressions until we are no
     // longer inside the innermost loop.
     while let Some((expr_state, expr)) = env.current_frame_mut().exprs_to_eval.pop() {
         match &expr.expr_ {
             Expression_::While(_, _) => {
+                // We're leaving the loop body early, so its bindings
+                // block has not been popped yet.
+                if matches!(
+                    expr_state,
+                    ExpressionState::PartiallyEvaluated(BlockState::DoneRunBlock)
+                ) {
+                    env.current_frame_mut().bindings.pop_block();
+                }
+
                 env.current_frame_mut()
                     .exprs_to_eval
                     .push((ExpressionState::EvaluatedSubexpressions, Rc::clone(&expr)));
@@ -7325,10 +7344,7 @@ fn eval_break(env: &mut Env, expr_value_is_used: bool) {
                 // We're exiting a block that wasn't part of a loop
                 // (i.e. a match case or an if/else block), so we
                 // should pop the bindings block here too.
-                if matches!(
-                    expr_state,
-                    ExpressionState::PartiallyEvaluated(BlockState::DoneRunBlock)
-                ) {
+                if owns_running_block(&expr, &expr_state) {
                     env.current_frame_mut().bindings.pop_block();
                 }
 
@@ -7357,6 +7373,12 @@ fn eval_continue(env: &mut Env) {
 
             env.push_expr_to_eval(expr_state, expr);
             break;
+        }
+
+        // We're skipping the rest of an if/else, match case or try
+        // block inside the loop body, so pop its bindings block too.
+        if owns_running_block(&expr, &expr_state) {
+            env.current_frame_mut().bindings.pop_block();
         }
     }
 }
